@@ -226,6 +226,45 @@ def _r3(chk, repo):
         kind, res = walk(canon_fn(repo, im, f, 1), {"self.visual_only": True}, pn)
         ok = kind == "return" and pn(res) == func_params(f)[1]
         chk.decide("C13-R3", f"{im.qual}.{d}/visual_only", ok, kind != "unknown", site(repo, f), "identity when visual_only", f"{d} does not honour visual_only", f)
+    # the function-vector representation of an image IS its parameter vector (funvec_shape == par_shape): vec2fun / fun2vec give, for either
+    # value of visual_only, what par2fun / fun2par give (delegations through the class's own methods are followed)
+    def outcome(name, val, level, depth=0):
+        f = im.lookup(name)[1] if im.lookup(name) else None
+        if f is None or depth > 4:
+            return None
+        kind, res = walk(canon_fn(repo, im, f, level), {"self.visual_only": val}, pn)
+        if kind != "return":
+            return None
+        x = func_params(f)[1]
+        if isinstance(res, ast.Call) and (call_name(res) or "").startswith("self.") and len(res.args) == 1 and not res.keywords \
+                and path_of(res.args[0]) == x and im.lookup(call_name(res)[5:]) is not None and call_name(res)[5:] in ("par2fun", "fun2par", "vec2fun", "fun2vec"):
+            return outcome(call_name(res)[5:], val, level, depth + 1)
+        class _R(ast.NodeTransformer):
+            def visit_Name(self, n):
+                return ast.copy_location(ast.Name("_x", n.ctx), n) if n.id == x else n
+        import copy as _c
+        return pn(_R().visit(_c.deepcopy(res)))
+    fv = im.lookup_prop("funvec_shape")
+    same_rep = fv is not None and fv.getter is not None and any(isinstance(r, ast.Return) and pn(r.value) in ("self.par_shape", "self._par_shape") for r in ast.walk(fv.getter))
+    if same_rep:
+        for a, b_ in (("vec2fun", "par2fun"), ("fun2vec", "fun2par")):
+            if a not in im.methods:
+                continue
+            rows = []
+            for v in (True, False):
+                best = (None, None)
+                for level in (1, 2):          # helpers kept, then helpers inlined: equal in either view is equal
+                    x, y = outcome(a, v, level), outcome(b_, v, level)
+                    if x is not None and y is not None and (best[0] is None or x == y):
+                        best = (x, y)
+                    if x is not None and x == y:
+                        break
+                rows.append((v,) + best)
+            rec = all(r[1] is not None and r[2] is not None for r in rows)
+            bad = [f"visual_only={v}: {a} gives `{x}`, {b_} gives `{y}`" for v, x, y in rows if x != y or x is None]
+            chk.decide("C13-R3", f"{im.qual}.{a}/agrees-with-{b_}", not bad, rec, site(repo, im.methods[a]),
+                       f"{a} == {b_} for visual_only in (True, False) (function vectors are parameter vectors)",
+                       f"{'; '.join(bad)}: the vector form of a function value no longer has the reported fun_shape / funvec_shape for that option", im.methods[a])
     c2 = repo.cls(f"{GEO}:Continuous2D")
     p2f, f2p = c2.methods["par2fun"], c2.methods["fun2par"]
     xa, xb = func_params(p2f)[1], func_params(f2p)[1]
